@@ -159,7 +159,7 @@ fn all_states(types: &[bool]) {
     }
 }
 
-//@ obl: id=U12.taiko.protocol.hhh harness=u12_taiko_protocol_hhh props=C15,C02 tier=quick kind=bounded
+//@ obl: id=U12.taiko.protocol.hhh harness=u12_taiko_protocol_hhh props=C15,C02,C03 tier=quick kind=bounded
 //@ fns: TaikoGradualDifficulty::next, TaikoGradualDifficulty::nth, TaikoGradualDifficulty::len, TaikoGradualDifficulty::size_hint
 //@ bound: bounded: M = 3 objects with hit (H) / non-hit (n) pattern HHH; every invariant state (each idx 0..=hits, exhausted iterator walked or not) enumerated; operation (next / nth) and the nth argument k symbolic over all usize
 //@ clause: C15 (a) len()==remaining, size_hint; (b) next() Some iff remaining>0 and consumes one; (c) nth(k) Some iff k<remaining, consumes min(k+1,remaining); (d) idx never exceeds the number of hits, len() never underflows; the i-th value has max_combo == i
@@ -167,7 +167,7 @@ stubs! { fn u12_taiko_protocol_hhh() {
     all_states(&[true, true, true]);
 } }
 
-//@ obl: id=U12.taiko.protocol.hhn harness=u12_taiko_protocol_hhn props=C15,C02 tier=quick kind=bounded
+//@ obl: id=U12.taiko.protocol.hhn harness=u12_taiko_protocol_hhn props=C15,C02,C03 tier=quick kind=bounded
 //@ fns: TaikoGradualDifficulty::next, TaikoGradualDifficulty::nth, TaikoGradualDifficulty::len, TaikoGradualDifficulty::size_hint
 //@ bound: bounded: M = 3 objects with hit (H) / non-hit (n) pattern HHn; every invariant state (each idx 0..=hits, exhausted iterator walked or not) enumerated; operation (next / nth) and the nth argument k symbolic over all usize
 //@ clause: C15 (a) len()==remaining, size_hint; (b) next() Some iff remaining>0 and consumes one; (c) nth(k) Some iff k<remaining, consumes min(k+1,remaining); (d) idx never exceeds the number of hits, len() never underflows; the i-th value has max_combo == i
@@ -182,7 +182,7 @@ fn one_state(types: &[bool], idx: usize, walked: bool) {
     mem::forget(g);
 }
 
-//@ obl: id=U12.taiko.protocol.hhhh_i0 harness=u12_taiko_protocol_hhhh_i0 props=C15,C02 tier=thorough kind=bounded budget=1800
+//@ obl: id=U12.taiko.protocol.hhhh_i0 harness=u12_taiko_protocol_hhhh_i0 props=C15,C02,C03 tier=thorough kind=bounded budget=1800
 //@ fns: TaikoGradualDifficulty::next, TaikoGradualDifficulty::nth, TaikoGradualDifficulty::len, TaikoGradualDifficulty::size_hint
 //@ bound: bounded: 4 objects with hit (H) / non-hit (n) pattern HHHH, calculator at position 0; operation (next / nth) and the nth argument symbolic over all usize
 //@ clause: C15 (a)-(d) and the count clause as U12.taiko.protocol.hhh
@@ -190,7 +190,7 @@ stubs! { fn u12_taiko_protocol_hhhh_i0() {
     one_state(&[true, true, true, true], 0, false);
 } }
 
-//@ obl: id=U12.taiko.protocol.hhhh_i1 harness=u12_taiko_protocol_hhhh_i1 props=C15,C02 tier=thorough kind=bounded budget=1800
+//@ obl: id=U12.taiko.protocol.hhhh_i1 harness=u12_taiko_protocol_hhhh_i1 props=C15,C02,C03 tier=thorough kind=bounded budget=1800
 //@ fns: TaikoGradualDifficulty::next, TaikoGradualDifficulty::nth, TaikoGradualDifficulty::len, TaikoGradualDifficulty::size_hint
 //@ bound: bounded: 4 objects with hit (H) / non-hit (n) pattern HHHH, calculator at position 1; operation (next / nth) and the nth argument symbolic over all usize
 //@ clause: C15 (a)-(d) and the count clause as U12.taiko.protocol.hhh
@@ -198,7 +198,7 @@ stubs! { fn u12_taiko_protocol_hhhh_i1() {
     one_state(&[true, true, true, true], 1, false);
 } }
 
-//@ obl: id=U12.taiko.protocol.hhhh_i2 harness=u12_taiko_protocol_hhhh_i2 props=C15,C02 tier=thorough kind=bounded budget=1800
+//@ obl: id=U12.taiko.protocol.hhhh_i2 harness=u12_taiko_protocol_hhhh_i2 props=C15,C02,C03 tier=thorough kind=bounded budget=1800
 //@ fns: TaikoGradualDifficulty::next, TaikoGradualDifficulty::nth, TaikoGradualDifficulty::len, TaikoGradualDifficulty::size_hint
 //@ bound: bounded: 4 objects with hit (H) / non-hit (n) pattern HHHH, calculator at position 2; operation (next / nth) and the nth argument symbolic over all usize
 //@ clause: C15 (a)-(d) and the count clause as U12.taiko.protocol.hhh
@@ -206,7 +206,7 @@ stubs! { fn u12_taiko_protocol_hhhh_i2() {
     one_state(&[true, true, true, true], 2, false);
 } }
 
-//@ obl: id=U12.taiko.protocol.hhhh_i3 harness=u12_taiko_protocol_hhhh_i3 props=C15,C02 tier=thorough kind=bounded budget=1800
+//@ obl: id=U12.taiko.protocol.hhhh_i3 harness=u12_taiko_protocol_hhhh_i3 props=C15,C02,C03 tier=thorough kind=bounded budget=1800
 //@ fns: TaikoGradualDifficulty::next, TaikoGradualDifficulty::nth, TaikoGradualDifficulty::len, TaikoGradualDifficulty::size_hint
 //@ bound: bounded: 4 objects with hit (H) / non-hit (n) pattern HHHH, calculator at position 3; operation (next / nth) and the nth argument symbolic over all usize
 //@ clause: C15 (a)-(d) and the count clause as U12.taiko.protocol.hhh
@@ -214,7 +214,7 @@ stubs! { fn u12_taiko_protocol_hhhh_i3() {
     one_state(&[true, true, true, true], 3, false);
 } }
 
-//@ obl: id=U12.taiko.protocol.hhhh_i4 harness=u12_taiko_protocol_hhhh_i4 props=C15,C02 tier=thorough kind=bounded budget=1800
+//@ obl: id=U12.taiko.protocol.hhhh_i4 harness=u12_taiko_protocol_hhhh_i4 props=C15,C02,C03 tier=thorough kind=bounded budget=1800
 //@ fns: TaikoGradualDifficulty::next, TaikoGradualDifficulty::nth, TaikoGradualDifficulty::len, TaikoGradualDifficulty::size_hint
 //@ bound: bounded: 4 objects with hit (H) / non-hit (n) pattern HHHH, calculator at position 4; operation (next / nth) and the nth argument symbolic over all usize
 //@ clause: C15 (a)-(d) and the count clause as U12.taiko.protocol.hhh
@@ -222,7 +222,7 @@ stubs! { fn u12_taiko_protocol_hhhh_i4() {
     one_state(&[true, true, true, true], 4, false);
 } }
 
-//@ obl: id=U12.taiko.protocol.hhhh_i4w harness=u12_taiko_protocol_hhhh_i4w props=C15,C02 tier=thorough kind=bounded budget=1800
+//@ obl: id=U12.taiko.protocol.hhhh_i4w harness=u12_taiko_protocol_hhhh_i4w props=C15,C02,C03 tier=thorough kind=bounded budget=1800
 //@ fns: TaikoGradualDifficulty::next, TaikoGradualDifficulty::nth, TaikoGradualDifficulty::len, TaikoGradualDifficulty::size_hint
 //@ bound: bounded: 4 objects with hit (H) / non-hit (n) pattern HHHH, calculator at position 4 (exhausted, iterator walked to the end); operation (next / nth) and the nth argument symbolic over all usize
 //@ clause: C15 (a)-(d) and the count clause as U12.taiko.protocol.hhh
@@ -230,7 +230,7 @@ stubs! { fn u12_taiko_protocol_hhhh_i4w() {
     one_state(&[true, true, true, true], 4, true);
 } }
 
-//@ obl: id=U12.taiko.protocol.hhnh_i0 harness=u12_taiko_protocol_hhnh_i0 props=C15,C02 tier=thorough kind=bounded budget=1800
+//@ obl: id=U12.taiko.protocol.hhnh_i0 harness=u12_taiko_protocol_hhnh_i0 props=C15,C02,C03 tier=thorough kind=bounded budget=1800
 //@ fns: TaikoGradualDifficulty::next, TaikoGradualDifficulty::nth, TaikoGradualDifficulty::len, TaikoGradualDifficulty::size_hint
 //@ bound: bounded: 4 objects with hit (H) / non-hit (n) pattern HHnH, calculator at position 0; operation (next / nth) and the nth argument symbolic over all usize
 //@ clause: C15 (a)-(d) and the count clause as U12.taiko.protocol.hhh
@@ -238,7 +238,7 @@ stubs! { fn u12_taiko_protocol_hhnh_i0() {
     one_state(&[true, true, false, true], 0, false);
 } }
 
-//@ obl: id=U12.taiko.protocol.hhnh_i1 harness=u12_taiko_protocol_hhnh_i1 props=C15,C02 tier=thorough kind=bounded budget=1800
+//@ obl: id=U12.taiko.protocol.hhnh_i1 harness=u12_taiko_protocol_hhnh_i1 props=C15,C02,C03 tier=thorough kind=bounded budget=1800
 //@ fns: TaikoGradualDifficulty::next, TaikoGradualDifficulty::nth, TaikoGradualDifficulty::len, TaikoGradualDifficulty::size_hint
 //@ bound: bounded: 4 objects with hit (H) / non-hit (n) pattern HHnH, calculator at position 1; operation (next / nth) and the nth argument symbolic over all usize
 //@ clause: C15 (a)-(d) and the count clause as U12.taiko.protocol.hhh
@@ -246,7 +246,7 @@ stubs! { fn u12_taiko_protocol_hhnh_i1() {
     one_state(&[true, true, false, true], 1, false);
 } }
 
-//@ obl: id=U12.taiko.protocol.hhnh_i2 harness=u12_taiko_protocol_hhnh_i2 props=C15,C02 tier=thorough kind=bounded budget=1800
+//@ obl: id=U12.taiko.protocol.hhnh_i2 harness=u12_taiko_protocol_hhnh_i2 props=C15,C02,C03 tier=thorough kind=bounded budget=1800
 //@ fns: TaikoGradualDifficulty::next, TaikoGradualDifficulty::nth, TaikoGradualDifficulty::len, TaikoGradualDifficulty::size_hint
 //@ bound: bounded: 4 objects with hit (H) / non-hit (n) pattern HHnH, calculator at position 2; operation (next / nth) and the nth argument symbolic over all usize
 //@ clause: C15 (a)-(d) and the count clause as U12.taiko.protocol.hhh
@@ -254,7 +254,7 @@ stubs! { fn u12_taiko_protocol_hhnh_i2() {
     one_state(&[true, true, false, true], 2, false);
 } }
 
-//@ obl: id=U12.taiko.protocol.hhnh_i3 harness=u12_taiko_protocol_hhnh_i3 props=C15,C02 tier=thorough kind=bounded budget=1800
+//@ obl: id=U12.taiko.protocol.hhnh_i3 harness=u12_taiko_protocol_hhnh_i3 props=C15,C02,C03 tier=thorough kind=bounded budget=1800
 //@ fns: TaikoGradualDifficulty::next, TaikoGradualDifficulty::nth, TaikoGradualDifficulty::len, TaikoGradualDifficulty::size_hint
 //@ bound: bounded: 4 objects with hit (H) / non-hit (n) pattern HHnH, calculator at position 3; operation (next / nth) and the nth argument symbolic over all usize
 //@ clause: C15 (a)-(d) and the count clause as U12.taiko.protocol.hhh
@@ -262,7 +262,7 @@ stubs! { fn u12_taiko_protocol_hhnh_i3() {
     one_state(&[true, true, false, true], 3, false);
 } }
 
-//@ obl: id=U12.taiko.protocol.hhnh_i3w harness=u12_taiko_protocol_hhnh_i3w props=C15,C02 tier=thorough kind=bounded budget=1800
+//@ obl: id=U12.taiko.protocol.hhnh_i3w harness=u12_taiko_protocol_hhnh_i3w props=C15,C02,C03 tier=thorough kind=bounded budget=1800
 //@ fns: TaikoGradualDifficulty::next, TaikoGradualDifficulty::nth, TaikoGradualDifficulty::len, TaikoGradualDifficulty::size_hint
 //@ bound: bounded: 4 objects with hit (H) / non-hit (n) pattern HHnH, calculator at position 3 (exhausted, iterator walked to the end); operation (next / nth) and the nth argument symbolic over all usize
 //@ clause: C15 (a)-(d) and the count clause as U12.taiko.protocol.hhh
@@ -270,7 +270,7 @@ stubs! { fn u12_taiko_protocol_hhnh_i3w() {
     one_state(&[true, true, false, true], 3, true);
 } }
 
-//@ obl: id=U12.taiko.protocol.hhhn_i0 harness=u12_taiko_protocol_hhhn_i0 props=C15,C02 tier=thorough kind=bounded budget=1800
+//@ obl: id=U12.taiko.protocol.hhhn_i0 harness=u12_taiko_protocol_hhhn_i0 props=C15,C02,C03 tier=thorough kind=bounded budget=1800
 //@ fns: TaikoGradualDifficulty::next, TaikoGradualDifficulty::nth, TaikoGradualDifficulty::len, TaikoGradualDifficulty::size_hint
 //@ bound: bounded: 4 objects with hit (H) / non-hit (n) pattern HHHn, calculator at position 0; operation (next / nth) and the nth argument symbolic over all usize
 //@ clause: C15 (a)-(d) and the count clause as U12.taiko.protocol.hhh
@@ -278,7 +278,7 @@ stubs! { fn u12_taiko_protocol_hhhn_i0() {
     one_state(&[true, true, true, false], 0, false);
 } }
 
-//@ obl: id=U12.taiko.protocol.hhhn_i1 harness=u12_taiko_protocol_hhhn_i1 props=C15,C02 tier=thorough kind=bounded budget=1800
+//@ obl: id=U12.taiko.protocol.hhhn_i1 harness=u12_taiko_protocol_hhhn_i1 props=C15,C02,C03 tier=thorough kind=bounded budget=1800
 //@ fns: TaikoGradualDifficulty::next, TaikoGradualDifficulty::nth, TaikoGradualDifficulty::len, TaikoGradualDifficulty::size_hint
 //@ bound: bounded: 4 objects with hit (H) / non-hit (n) pattern HHHn, calculator at position 1; operation (next / nth) and the nth argument symbolic over all usize
 //@ clause: C15 (a)-(d) and the count clause as U12.taiko.protocol.hhh
@@ -286,7 +286,7 @@ stubs! { fn u12_taiko_protocol_hhhn_i1() {
     one_state(&[true, true, true, false], 1, false);
 } }
 
-//@ obl: id=U12.taiko.protocol.hhhn_i2 harness=u12_taiko_protocol_hhhn_i2 props=C15,C02 tier=thorough kind=bounded budget=1800
+//@ obl: id=U12.taiko.protocol.hhhn_i2 harness=u12_taiko_protocol_hhhn_i2 props=C15,C02,C03 tier=thorough kind=bounded budget=1800
 //@ fns: TaikoGradualDifficulty::next, TaikoGradualDifficulty::nth, TaikoGradualDifficulty::len, TaikoGradualDifficulty::size_hint
 //@ bound: bounded: 4 objects with hit (H) / non-hit (n) pattern HHHn, calculator at position 2; operation (next / nth) and the nth argument symbolic over all usize
 //@ clause: C15 (a)-(d) and the count clause as U12.taiko.protocol.hhh
@@ -294,7 +294,7 @@ stubs! { fn u12_taiko_protocol_hhhn_i2() {
     one_state(&[true, true, true, false], 2, false);
 } }
 
-//@ obl: id=U12.taiko.protocol.hhhn_i3 harness=u12_taiko_protocol_hhhn_i3 props=C15,C02 tier=thorough kind=bounded budget=1800
+//@ obl: id=U12.taiko.protocol.hhhn_i3 harness=u12_taiko_protocol_hhhn_i3 props=C15,C02,C03 tier=thorough kind=bounded budget=1800
 //@ fns: TaikoGradualDifficulty::next, TaikoGradualDifficulty::nth, TaikoGradualDifficulty::len, TaikoGradualDifficulty::size_hint
 //@ bound: bounded: 4 objects with hit (H) / non-hit (n) pattern HHHn, calculator at position 3; operation (next / nth) and the nth argument symbolic over all usize
 //@ clause: C15 (a)-(d) and the count clause as U12.taiko.protocol.hhh
@@ -302,7 +302,7 @@ stubs! { fn u12_taiko_protocol_hhhn_i3() {
     one_state(&[true, true, true, false], 3, false);
 } }
 
-//@ obl: id=U12.taiko.protocol.hhhn_i3w harness=u12_taiko_protocol_hhhn_i3w props=C15,C02 tier=thorough kind=bounded budget=1800
+//@ obl: id=U12.taiko.protocol.hhhn_i3w harness=u12_taiko_protocol_hhhn_i3w props=C15,C02,C03 tier=thorough kind=bounded budget=1800
 //@ fns: TaikoGradualDifficulty::next, TaikoGradualDifficulty::nth, TaikoGradualDifficulty::len, TaikoGradualDifficulty::size_hint
 //@ bound: bounded: 4 objects with hit (H) / non-hit (n) pattern HHHn, calculator at position 3 (exhausted, iterator walked to the end); operation (next / nth) and the nth argument symbolic over all usize
 //@ clause: C15 (a)-(d) and the count clause as U12.taiko.protocol.hhh
@@ -310,7 +310,7 @@ stubs! { fn u12_taiko_protocol_hhhn_i3w() {
     one_state(&[true, true, true, false], 3, true);
 } }
 
-//@ obl: id=U12.taiko.protocol.hhnn_i0 harness=u12_taiko_protocol_hhnn_i0 props=C15,C02 tier=thorough kind=bounded budget=1800
+//@ obl: id=U12.taiko.protocol.hhnn_i0 harness=u12_taiko_protocol_hhnn_i0 props=C15,C02,C03 tier=thorough kind=bounded budget=1800
 //@ fns: TaikoGradualDifficulty::next, TaikoGradualDifficulty::nth, TaikoGradualDifficulty::len, TaikoGradualDifficulty::size_hint
 //@ bound: bounded: 4 objects with hit (H) / non-hit (n) pattern HHnn, calculator at position 0; operation (next / nth) and the nth argument symbolic over all usize
 //@ clause: C15 (a)-(d) and the count clause as U12.taiko.protocol.hhh
@@ -318,7 +318,7 @@ stubs! { fn u12_taiko_protocol_hhnn_i0() {
     one_state(&[true, true, false, false], 0, false);
 } }
 
-//@ obl: id=U12.taiko.protocol.hhnn_i1 harness=u12_taiko_protocol_hhnn_i1 props=C15,C02 tier=thorough kind=bounded budget=1800
+//@ obl: id=U12.taiko.protocol.hhnn_i1 harness=u12_taiko_protocol_hhnn_i1 props=C15,C02,C03 tier=thorough kind=bounded budget=1800
 //@ fns: TaikoGradualDifficulty::next, TaikoGradualDifficulty::nth, TaikoGradualDifficulty::len, TaikoGradualDifficulty::size_hint
 //@ bound: bounded: 4 objects with hit (H) / non-hit (n) pattern HHnn, calculator at position 1; operation (next / nth) and the nth argument symbolic over all usize
 //@ clause: C15 (a)-(d) and the count clause as U12.taiko.protocol.hhh
@@ -326,7 +326,7 @@ stubs! { fn u12_taiko_protocol_hhnn_i1() {
     one_state(&[true, true, false, false], 1, false);
 } }
 
-//@ obl: id=U12.taiko.protocol.hhnn_i2 harness=u12_taiko_protocol_hhnn_i2 props=C15,C02 tier=thorough kind=bounded budget=1800
+//@ obl: id=U12.taiko.protocol.hhnn_i2 harness=u12_taiko_protocol_hhnn_i2 props=C15,C02,C03 tier=thorough kind=bounded budget=1800
 //@ fns: TaikoGradualDifficulty::next, TaikoGradualDifficulty::nth, TaikoGradualDifficulty::len, TaikoGradualDifficulty::size_hint
 //@ bound: bounded: 4 objects with hit (H) / non-hit (n) pattern HHnn, calculator at position 2; operation (next / nth) and the nth argument symbolic over all usize
 //@ clause: C15 (a)-(d) and the count clause as U12.taiko.protocol.hhh
@@ -334,7 +334,7 @@ stubs! { fn u12_taiko_protocol_hhnn_i2() {
     one_state(&[true, true, false, false], 2, false);
 } }
 
-//@ obl: id=U12.taiko.protocol.hhnn_i2w harness=u12_taiko_protocol_hhnn_i2w props=C15,C02 tier=thorough kind=bounded budget=1800
+//@ obl: id=U12.taiko.protocol.hhnn_i2w harness=u12_taiko_protocol_hhnn_i2w props=C15,C02,C03 tier=thorough kind=bounded budget=1800
 //@ fns: TaikoGradualDifficulty::next, TaikoGradualDifficulty::nth, TaikoGradualDifficulty::len, TaikoGradualDifficulty::size_hint
 //@ bound: bounded: 4 objects with hit (H) / non-hit (n) pattern HHnn, calculator at position 2 (exhausted, iterator walked to the end); operation (next / nth) and the nth argument symbolic over all usize
 //@ clause: C15 (a)-(d) and the count clause as U12.taiko.protocol.hhh
@@ -342,7 +342,7 @@ stubs! { fn u12_taiko_protocol_hhnn_i2w() {
     one_state(&[true, true, false, false], 2, true);
 } }
 
-//@ obl: id=U12.taiko.protocol.hhhnh_i0 harness=u12_taiko_protocol_hhhnh_i0 props=C15,C02 tier=thorough kind=bounded budget=1800
+//@ obl: id=U12.taiko.protocol.hhhnh_i0 harness=u12_taiko_protocol_hhhnh_i0 props=C15,C02,C03 tier=thorough kind=bounded budget=1800
 //@ fns: TaikoGradualDifficulty::next, TaikoGradualDifficulty::nth, TaikoGradualDifficulty::len, TaikoGradualDifficulty::size_hint
 //@ bound: bounded: 5 objects with hit (H) / non-hit (n) pattern HHHnH, calculator at position 0; operation (next / nth) and the nth argument symbolic over all usize
 //@ clause: C15 (a)-(d) and the count clause as U12.taiko.protocol.hhh
@@ -350,7 +350,7 @@ stubs! { fn u12_taiko_protocol_hhhnh_i0() {
     one_state(&[true, true, true, false, true], 0, false);
 } }
 
-//@ obl: id=U12.taiko.protocol.hhhnh_i1 harness=u12_taiko_protocol_hhhnh_i1 props=C15,C02 tier=thorough kind=bounded budget=1800
+//@ obl: id=U12.taiko.protocol.hhhnh_i1 harness=u12_taiko_protocol_hhhnh_i1 props=C15,C02,C03 tier=thorough kind=bounded budget=1800
 //@ fns: TaikoGradualDifficulty::next, TaikoGradualDifficulty::nth, TaikoGradualDifficulty::len, TaikoGradualDifficulty::size_hint
 //@ bound: bounded: 5 objects with hit (H) / non-hit (n) pattern HHHnH, calculator at position 1; operation (next / nth) and the nth argument symbolic over all usize
 //@ clause: C15 (a)-(d) and the count clause as U12.taiko.protocol.hhh
@@ -358,7 +358,7 @@ stubs! { fn u12_taiko_protocol_hhhnh_i1() {
     one_state(&[true, true, true, false, true], 1, false);
 } }
 
-//@ obl: id=U12.taiko.protocol.hhhnh_i2 harness=u12_taiko_protocol_hhhnh_i2 props=C15,C02 tier=thorough kind=bounded budget=1800
+//@ obl: id=U12.taiko.protocol.hhhnh_i2 harness=u12_taiko_protocol_hhhnh_i2 props=C15,C02,C03 tier=thorough kind=bounded budget=1800
 //@ fns: TaikoGradualDifficulty::next, TaikoGradualDifficulty::nth, TaikoGradualDifficulty::len, TaikoGradualDifficulty::size_hint
 //@ bound: bounded: 5 objects with hit (H) / non-hit (n) pattern HHHnH, calculator at position 2; operation (next / nth) and the nth argument symbolic over all usize
 //@ clause: C15 (a)-(d) and the count clause as U12.taiko.protocol.hhh
@@ -366,7 +366,7 @@ stubs! { fn u12_taiko_protocol_hhhnh_i2() {
     one_state(&[true, true, true, false, true], 2, false);
 } }
 
-//@ obl: id=U12.taiko.protocol.hhhnh_i3 harness=u12_taiko_protocol_hhhnh_i3 props=C15,C02 tier=thorough kind=bounded budget=1800
+//@ obl: id=U12.taiko.protocol.hhhnh_i3 harness=u12_taiko_protocol_hhhnh_i3 props=C15,C02,C03 tier=thorough kind=bounded budget=1800
 //@ fns: TaikoGradualDifficulty::next, TaikoGradualDifficulty::nth, TaikoGradualDifficulty::len, TaikoGradualDifficulty::size_hint
 //@ bound: bounded: 5 objects with hit (H) / non-hit (n) pattern HHHnH, calculator at position 3; operation (next / nth) and the nth argument symbolic over all usize
 //@ clause: C15 (a)-(d) and the count clause as U12.taiko.protocol.hhh
@@ -374,7 +374,7 @@ stubs! { fn u12_taiko_protocol_hhhnh_i3() {
     one_state(&[true, true, true, false, true], 3, false);
 } }
 
-//@ obl: id=U12.taiko.protocol.hhhnh_i4 harness=u12_taiko_protocol_hhhnh_i4 props=C15,C02 tier=thorough kind=bounded budget=1800
+//@ obl: id=U12.taiko.protocol.hhhnh_i4 harness=u12_taiko_protocol_hhhnh_i4 props=C15,C02,C03 tier=thorough kind=bounded budget=1800
 //@ fns: TaikoGradualDifficulty::next, TaikoGradualDifficulty::nth, TaikoGradualDifficulty::len, TaikoGradualDifficulty::size_hint
 //@ bound: bounded: 5 objects with hit (H) / non-hit (n) pattern HHHnH, calculator at position 4; operation (next / nth) and the nth argument symbolic over all usize
 //@ clause: C15 (a)-(d) and the count clause as U12.taiko.protocol.hhh
@@ -382,7 +382,7 @@ stubs! { fn u12_taiko_protocol_hhhnh_i4() {
     one_state(&[true, true, true, false, true], 4, false);
 } }
 
-//@ obl: id=U12.taiko.protocol.hhhnh_i4w harness=u12_taiko_protocol_hhhnh_i4w props=C15,C02 tier=thorough kind=bounded budget=1800
+//@ obl: id=U12.taiko.protocol.hhhnh_i4w harness=u12_taiko_protocol_hhhnh_i4w props=C15,C02,C03 tier=thorough kind=bounded budget=1800
 //@ fns: TaikoGradualDifficulty::next, TaikoGradualDifficulty::nth, TaikoGradualDifficulty::len, TaikoGradualDifficulty::size_hint
 //@ bound: bounded: 5 objects with hit (H) / non-hit (n) pattern HHHnH, calculator at position 4 (exhausted, iterator walked to the end); operation (next / nth) and the nth argument symbolic over all usize
 //@ clause: C15 (a)-(d) and the count clause as U12.taiko.protocol.hhh
